@@ -88,25 +88,3 @@ def run(ctx: Ctx):  # noqa: F811
                   f"{p.cls.name}.{p.field.name} is annotated {_show(p.field.resolved)}; the metamodel type is {_show(p.exp_ty)}",
                   _PT, p.field.lineno)
     ctx.floor("positions compared with the metamodel type", n, 60)
-
-
-_run_before_get_converter = run
-
-
-def run(ctx: Ctx):  # noqa: F811
-    _run_before_get_converter(ctx)
-    # every dispatch decision above presumes that the converter handed out carries the package's hooks: get_converter
-    # must run register_hooks on the default path and on a caller-supplied converter alike (decided by the fold of
-    # get_converter in C19; its two findings are this property's too)
-    from ..common import Ctx as _Ctx, AnalysisError as _AE
-    from . import c19 as _c19
-    sub = _Ctx("C14", ctx.tier, ctx.seed, ctx.src, quiet=True)
-    try:
-        _c19.run(sub)
-    except _AE:
-        pass
-    hits = [f for f in sub.findings if f.rule == "fresh-converter"]
-    for f in hits:
-        ctx.fail("hooks-registered-on-every-path", f.construct, f.message, f.file, f.line)
-    if not hits:
-        ctx.ok("hooks-registered-on-every-path")
